@@ -434,6 +434,7 @@ func (h *harness) run() {
 
 	gap := time.Duration(sc.Cfg("gap_us", 5)) * time.Microsecond
 	readerMax := time.Duration(sc.Cfg("reader_us", 0)) * time.Microsecond
+	impatient := float64(sc.Cfg("impatient_pct", 0)) / 100
 	per := h.validSteps()
 
 	// readers of the real receivers
@@ -447,9 +448,35 @@ func (h *harness) run() {
 		readers.Add(1)
 		go func(k int, c *consumer) {
 			defer readers.Done()
-			for {
-				e, err := c.rcv.Next(ctx)
+			for n := 0; ; n++ {
+				// an impatient consumer: some calls come with a context that is
+				// already done, others with a deadline that may pass while the call
+				// waits; the receiver stays open and the consumer simply calls
+				// again. An envelope that was handed to the receiver must still be
+				// returned by exactly one call.
+				if impatient > 0 && s.Chance("impatient:"+strconv.Itoa(k), impatient) {
+					dead, stop := context.WithCancel(ctx)
+					stop()
+					if e, err := c.rcv.Next(dead); err == nil {
+						tag, _ := tagOf(e)
+						c.read.add(tag)
+						s.Note("r%d read e%d (done context)", k, tag)
+					} else if ctx.Err() != nil || c.rcv.IsClosed() {
+						return
+					}
+					s.Count("fault.reader_done_context", 1)
+				}
+				cctx, stop := ctx, context.CancelFunc(func() {})
+				if impatient > 0 && s.Chance("deadline:"+strconv.Itoa(k), impatient) {
+					cctx, stop = context.WithTimeout(ctx, s.Delay("deadline:"+strconv.Itoa(k), 0, 4*gap+time.Microsecond))
+				}
+				e, err := c.rcv.Next(cctx)
+				stop()
 				if err != nil {
+					if ctx.Err() == nil && !c.rcv.IsClosed() && cctx.Err() != nil {
+						s.Count("fault.reader_deadline_passed", 1)
+						continue
+					}
 					return
 				}
 				tag, _ := tagOf(e)
